@@ -125,6 +125,236 @@ class ParsePrinted(Contract):
         return judge(nat)
 
 
+class ParsePrintedInstant(Contract):
+    name = f"{H}.instant"
+    prop = ("C05",)
+    top_level = True
+    descr = "every instant (years 1000..9999) prints as an ISO date that parses back to itself"
+    inline = (f"{H}.*", "openfisca_core.periods._parsers.*", "openfisca_core.types.*", f"{INS}.__str__", f"{INS}.date")
+
+    def target(self, I):
+        d = I.resolve_qualified(self.name)
+        for ann, f in d.registry:
+            if ann.split(".")[-1].strip() == "str":
+                return f, "dispatch:str"
+        raise Unsupported("no str overload of helpers.instant")
+
+    def setup(self, I, ctx, case):
+        i, (y, m, d) = sym_instant(I, ctx, "i")
+        ctx.assume(z3.And(y >= 1000, y <= 9999))
+        f = I.resolve_qualified(f"{INS}.__str__")
+        ctx.depth += 1
+        try:
+            text = I.call(ctx, f, [i], {})
+        finally:
+            ctx.depth -= 1
+        return {"value": text, "__i": i}
+
+    def post(self, I, ctx, a, out, old):
+        if out[0] != "return" or not isinstance(out[1], TupleVal):
+            return [("the-printed-instant-parses", False)]
+        return [("parses-back-to-itself", z3.And(*[zi(x) == zi(y) for x, y in zip(ymd(out[1]), ymd(a["__i"]))]))]
+
+    def call_descriptor(self, I, case, a, ev):
+        return {"callee": self.name, "script": NATIVE, "mode": "instant", "start": [ev(zi(x)) for x in ymd(a["__i"])]}
+
+    def probes(self, case):
+        return [{"callee": self.name, "script": NATIVE, "mode": "instant", "start": st} for st in ([2014, 1, 1], [2016, 2, 29], [1000, 1, 1], [9999, 12, 31])]
+
+    def judge_native(self, I, case, call, nat):
+        return judge(nat)
+
+
+class PrintInjective(Contract):
+    name = f"{PER}.__str__"
+    prop = ("C05",)
+    top_level = True
+    cases = tuple(c for c in PRINT_CASES if c[0] != "eternity") + (("year", "any"), ("month", "any"), ("day", "any"), ("week", "any"), ("weekday", "any"))
+    descr = ("two aligned periods of the same unit that differ in start or size never print to the same text (cases: both of one size "
+             "class, and sizes of any two classes)")
+    inline = ("openfisca_core.periods.date_unit.*",)
+
+    def setup(self, I, ctx, case):
+        unit, szc = case
+        p = aligned_period(I, ctx, unit, szc if szc != "any" else "anysize", "p") if szc != "any" else self._any(I, ctx, unit, "p")
+        q = aligned_period(I, ctx, unit, szc, "q") if szc != "any" else self._any(I, ctx, unit, "q")
+        same = z3.And(*[zi(x) == zi(y) for x, y in zip(ymd(period_parts(p)[1]), ymd(period_parts(q)[1]))], zi(period_parts(p)[2]) == zi(period_parts(q)[2]))
+        ctx.assume(z3.Not(same))
+        f = I.resolve_qualified(f"{PER}.__str__")
+        ctx.depth += 1
+        try:
+            other = I.call(ctx, f, [q], {})
+        finally:
+            ctx.depth -= 1
+        return {"self": p, "__other": other}
+
+    @staticmethod
+    def _any(I, ctx, unit, base):
+        p = sym_period(I, ctx, unit, base)
+        u, s, n = period_parts(p)
+        y, m, d = ymd(s)
+        ctx.assume(z3.And(y >= 1000, y <= 9999, zi(n) >= 1))
+        if unit in ("month", "year"):
+            ctx.assume(d == 1)
+        o = cal.ordinal(y, m, d)
+        if unit == "week":
+            ctx.assume(cal.weekday0(o) == 0)
+        if unit in ("week", "weekday"):
+            th = o - cal.weekday0(o) + 3
+            ctx.assume(z3.And(th >= cal.OM(12 * 1000), th < cal.OM(12 * 10000)))
+        return p
+
+    def post(self, I, ctx, a, out, old):
+        if out[0] != "return":
+            return [("prints", False)]
+        return [("texts-differ", z3.Not(B._zb(B.eq_formula(I, ctx, out[1], a["__other"]))))]
+
+
+def _date_text(ctx, shape, base="f"):
+    """(format string, fields dict) of an ISO shape with symbolic fields: year 1000..9999 in four digits, the other fields any
+    value their number of digits can show"""
+    y = ctx.fresh_int(base + "y")
+    ctx.assume(z3.And(y >= 1000, y <= 9999))
+    f = {"y": y}
+    parts = [Dec(y, 4)]
+    if shape in ("month", "day"):
+        f["m"] = ctx.fresh_int(base + "m")
+        ctx.assume(z3.And(f["m"] >= 0, f["m"] <= 99))
+        parts += ["-", Dec(f["m"], 2)]
+    if shape == "day":
+        f["d"] = ctx.fresh_int(base + "d")
+        ctx.assume(z3.And(f["d"] >= 0, f["d"] <= 99))
+        parts += ["-", Dec(f["d"], 2)]
+    if shape in ("week", "weekday"):
+        f["w"] = ctx.fresh_int(base + "w")
+        ctx.assume(z3.And(f["w"] >= 0, f["w"] <= 99))
+        parts += ["-W", Dec(f["w"], 2)]
+    if shape == "weekday":
+        f["wd"] = ctx.fresh_int(base + "wd")
+        ctx.assume(z3.And(f["wd"] >= 0, f["wd"] <= 9))
+        parts += ["-", Dec(f["wd"], 1)]
+    return parts, f
+
+
+def _exists(f, shape):
+    """the date the ISO text names exists"""
+    y = f["y"]
+    if shape == "year":
+        return z3.BoolVal(True)
+    if shape == "month":
+        return z3.And(f["m"] >= 1, f["m"] <= 12)
+    if shape == "day":
+        return cal.valid(y, f["m"], f["d"])
+    jan4 = cal.OM(12 * y) + 3
+    thursday = jan4 - cal.weekday0(jan4) + 7 * (f["w"] - 1) + 3
+    ok = z3.And(f["w"] >= 1, thursday < cal.OM(12 * y + 12))
+    if shape == "weekday":
+        ok = z3.And(ok, f["wd"] >= 1, f["wd"] <= 7)
+    return ok
+
+
+FINER = (("day", "year"), ("day", "month"), ("day", "week"), ("weekday", "year"), ("weekday", "month"), ("weekday", "week"),
+         ("week", "year"), ("month", "year"), ("week", "month"))
+
+
+class Refusals(Contract):
+    name = f"{H}.period#refusals"
+    prop = ("C05",)
+    top_level = True
+    cases = tuple(("impossible-date", sh) for sh in ("month", "day", "week", "weekday")) + \
+        tuple(("finer-unit", u, sh, sz) for u, sh in FINER for sz in ("no-size", "size")) + \
+        tuple(("non-integer-size", t) for t in ("x", "1.5", "", "1x", "one")) + \
+        tuple(("unknown-unit", u) for u in ("fortnight", "eternity", "quarter", "")) + (("extra-field",),)
+    descr = ("strings naming an impossible calendar date, a unit finer than the precision of the date given, a non-integer size, an "
+             "unknown unit or extra fields are refused with an error (a ValueError) instead of being mapped to some period")
+    inline = ParsePrinted.inline
+
+    def setup(self, I, ctx, case):
+        kind = case[0]
+        if kind == "impossible-date":
+            parts, f = _date_text(ctx, case[1])
+            ctx.assume(z3.Not(_exists(f, case[1])))
+        elif kind == "finer-unit":
+            _, u, sh, sz = case
+            parts, f = _date_text(ctx, sh)
+            ctx.assume(_exists(f, sh))
+            parts = [u, ":"] + parts
+            if sz == "size":
+                n = ctx.fresh_int("n")
+                ctx.assume(n >= 1)
+                parts += [":", Dec(n, None)]
+        elif kind == "non-integer-size":
+            parts, f = _date_text(ctx, "month")
+            ctx.assume(_exists(f, "month"))
+            parts = ["month", ":"] + parts + [":", case[1]]
+        elif kind == "unknown-unit":
+            parts, f = _date_text(ctx, "month")
+            ctx.assume(_exists(f, "month"))
+            parts = [case[1], ":"] + parts
+        else:
+            parts, f = _date_text(ctx, "month")
+            ctx.assume(_exists(f, "month"))
+            n, k = ctx.fresh_int("n"), ctx.fresh_int("k")
+            ctx.assume(z3.And(n >= 1, k >= 0))
+            parts = ["month", ":"] + parts + [":", Dec(n, None), ":", Dec(k, None)]
+        text = FmtStr(parts)
+        return {"value": text, "__case": case, "__f": f}
+
+    def post(self, I, ctx, a, out, old):
+        if out[0] != "raise":
+            return [("refused", False)]
+        return [("refused", True), ("with-a-value-error", any(c.name == "ValueError" for c in out[1].cls.mro()))]
+
+    def probes(self, case):
+        kind = case[0]
+        texts = []
+        if kind == "impossible-date":
+            texts = {"month": ["2014-13", "2014-00"], "day": ["2014-02-30", "2015-02-29", "2014-04-31", "2014-13-01"],
+                     "week": ["2014-W53", "2015-W54", "2014-W00"], "weekday": ["2014-W01-8", "2014-W01-0", "2014-W53-1"]}[case[1]]
+        elif kind == "finer-unit":
+            _, u, sh, sz = case
+            date = {"year": "2014", "month": "2014-02", "week": "2014-W05"}[sh]
+            texts = [f"{u}:{date}" + (":3" if sz == "size" else "")]
+        elif kind == "non-integer-size":
+            texts = ["month:2014-02:" + case[1]]
+        elif kind == "unknown-unit":
+            texts = [case[1] + ":2014-02"]
+        else:
+            texts = ["month:2014-02:3:1"]
+        return [{"callee": self.name, "script": NATIVE, "mode": "must-refuse", "text": t} for t in texts]
+
+    def call_descriptor(self, I, case, a, ev):
+        return None
+
+    def judge_native(self, I, case, call, nat):
+        return judge(nat)
+
+
+REFUSAL_KINDS = ("impossible-date", "finer-unit", "non-integer-size", "unknown-unit", "extra-field")
+
+
+class PeriodOfText(ParsePrinted):
+    """one registered contract for helpers.period: the round trip on printed texts and the refusals"""
+    cases = ParsePrinted.cases + Refusals.cases
+    descr = ParsePrinted.descr + "; " + Refusals.descr
+    _r = Refusals()
+
+    def _is_r(self, case):
+        return case[0] in REFUSAL_KINDS
+
+    def setup(self, I, ctx, case):
+        return self._r.setup(I, ctx, case) if self._is_r(case) else super().setup(I, ctx, case)
+
+    def post(self, I, ctx, a, out, old):
+        return self._r.post(I, ctx, a, out, old) if self._is_r(a["__case"]) else super().post(I, ctx, a, out, old)
+
+    def probes(self, case):
+        return self._r.probes(case) if self._is_r(case) else super().probes(case)
+
+    def call_descriptor(self, I, case, a, ev):
+        return None if self._is_r(case) else super().call_descriptor(I, case, a, ev)
+
+
 NATIVE = "import sys; sys.path.insert(0, '/verif/native')\nimport c05_replay\noutcome = c05_replay.run(call)\n"
 
 
@@ -136,4 +366,4 @@ def judge(nat):
     return ("satisfies", "as specified") if nat["value"].get("ok") else ("violates", str(nat["value"])[:400])
 
 
-CONTRACTS = [ParsePrinted()]
+CONTRACTS = [PeriodOfText(), ParsePrintedInstant(), PrintInjective()]
